@@ -55,6 +55,8 @@ def day_reply_routine(rec):
 
 
 def day_reply_followup(case, rec):
+    if rec["crash"]:
+        return "c=1"
     today = L(L([o[0], o[2] if o[1] in "CP" else 0]) for o in rec["outcomes"])
     reps = {p[0]: p[1] for p in rec["planners"]}
     st = L(L([s["id"], 1 if s["id"] in rec["flags"] else 0, L([L([0, rec["totals"][s["id"]]])]),
